@@ -555,7 +555,86 @@ fn kind_name(v: &Value) -> String {
     }
 }
 
+/// A hand-written `Object` may override `Object::find` ("this can be overridden if required"):
+/// here one that keeps its fields under flattened dotted names. Wherever the engine reaches such an
+/// object — as the document, behind `&dyn Object`, as the value of a nested block, as an element
+/// of an array under a nested block — the object's OWN `find` answers, so the verdict is the one
+/// the YAML / JSON rendering of the same data gets.
+fn c11_overridden_find(ctx: &mut Ctx) {
+    struct Flat(Vec<(String, MyVal)>);
+    impl Flat {
+        fn lookup(&self, key: &str) -> Option<Value<'_>> { self.0.iter().find(|(k, _)| k == key).map(|(_, v)| v.as_value()) }
+    }
+    impl Object for Flat {
+        fn find(&self, key: &str) -> Option<Value<'_>> { self.lookup(key) }
+        fn get(&self, key: &str) -> Option<Value<'_>> { self.lookup(key) }
+        fn keys(&self) -> Vec<Cow<'_, str>> { self.0.iter().map(|(k, _)| Cow::Borrowed(k.as_str())).collect() }
+        fn len(&self) -> usize { self.0.len() }
+    }
+    struct Outer { process: Flat, list: Vec<FlatVal> }
+    struct FlatVal(Flat);
+    impl AsValue for FlatVal { fn as_value(&self) -> Value<'_> { Value::Object(&self.0) } }
+    impl Object for Outer {
+        fn get(&self, key: &str) -> Option<Value<'_>> {
+            match key { "process" => Some(Value::Object(&self.process)), "procs" => Some(Value::Array(&self.list)), _ => None }
+        }
+        fn keys(&self) -> Vec<Cow<'_, str>> { vec![Cow::Borrowed("process"), Cow::Borrowed("procs")] }
+        fn len(&self) -> usize { 2 }
+    }
+    let flat = |name: &str, parent: &str, pid: i64| Flat(vec![("name".into(), MyVal::Str(name.into())), ("parent.name".into(), MyVal::Str(parent.into())), ("parent.pid".into(), MyVal::Int(pid)), ("args[1]".into(), MyVal::Str("-enc".into()))]);
+    let nested_text = |name: &str, parent: &str, pid: i64| format!("{{name: {}, parent: {{name: {}, pid: {}}}, args: [x, -enc]}}", name, parent, pid);
+    let bodies = [
+        "process:\n      name: powershell.exe\n      parent.name: winword.exe",
+        "process:\n      parent.name: winword.exe",
+        "process:\n      parent.pid: 4",
+        "process:\n      int(parent.pid): '>3'",
+        "process:\n      args[1]: -enc",
+        "process:\n      parent.name: ['i*WORD*', excel.exe]\n      name: '*shell*'",
+        "procs:\n      parent.name: winword.exe",
+        "procs:\n      name: cmd.exe\n      parent.pid: 9",
+        "procs:\n      all(parent.name): ['*win*', '*word*']",
+    ];
+    for body in bodies {
+        for cond in ["A", "not A"] {
+            let text = format!("detection:\n  A:\n    {}\n  condition: {}\ntrue_positives: []\ntrue_negatives: []\n", body, cond);
+            let base = match Rule::from_str(&text) { Ok(r) => r, Err(_) => continue };
+            for (pname, pparent, ppid) in [("powershell.exe", "winword.exe", 4i64), ("powershell.exe", "explorer.exe", 4), ("cmd.exe", "winword.exe", 9)] {
+                let ytext = format!("{{process: {}, procs: [{}, {}]}}", nested_text(pname, pparent, ppid), nested_text("cmd.exe", "services.exe", 9), nested_text(pname, pparent, ppid));
+                let yv: Yaml = serde_yaml::from_str(&ytext).unwrap();
+                let js = json_of_yaml(&yv).unwrap();
+                let outer = Outer { process: flat(pname, pparent, ppid), list: vec![FlatVal(flat("cmd.exe", "services.exe", 9)), FlatVal(flat(pname, pparent, ppid))] };
+                for mask in [0u64, 15, 3, 8] {
+                    let rule = if mask == 0 { base.clone() } else { base.clone().optimise(implside::opts(mask)) };
+                    ctx.evaluations += 1;
+                    ctx.nontrivial.insert(hash_str(&format!("flat{}{}{}{}", body, cond, pparent, mask)));
+                    let dynobj: &dyn Object = &outer;
+                    let reps = [
+                        ("yaml mapping", rule.matches(yv.as_mapping().unwrap())),
+                        ("serde_json value", rule.matches(&js)),
+                        ("hand-written Object whose members override find()", rule.matches(&outer)),
+                        ("the same behind &dyn Object", rule.matches(&dynobj)),
+                    ];
+                    if reps.iter().any(|(_, b)| *b != reps[0].1) {
+                        let dummy = ctx.exchange("tok s:");
+                        ctx.violation("oracle", &format!("switches {}: rule `{}` ({}) on {}: verdicts differ between representations: {:?}", mask, body.replace('\n', " "), cond, ytext, reps), &dummy, &text, true);
+                        break;
+                    }
+                }
+                // the override itself is what answers behind &dyn Object
+                let f = flat(pname, pparent, ppid);
+                let d: &dyn Object = &f;
+                let direct = Document::find(&d, "parent.name").and_then(|v| v.to_string());
+                if direct.as_deref() != Some(pparent) {
+                    let dummy = ctx.exchange("tok s:");
+                    ctx.violation("oracle", &format!("Document::find on `&dyn Object` does not use the object's own find(): `parent.name` gives {:?}, the object answers {:?}", direct, pparent), &dummy, &text, true);
+                }
+            }
+        }
+    }
+}
+
 pub fn run_c11(ctx: &mut Ctx, _known: &Known) {
+    c11_overridden_find(ctx);
     // (1) Rust scalar / container types map to the value kind with the same value and signedness
     let mut kinds: Vec<(String, String, String)> = vec![];
     macro_rules! k {
@@ -2431,10 +2510,29 @@ pub fn run_c15(ctx: &mut Ctx, _known: &Known) {
         }
     };
     let n = budget(ctx, 1500, 30000);
-    for i in 0..n {
+    // patterns of every kind at and around the lengths where a limit or a buffer could sit
+    // (measured with or without the `i` marker, which only one of the two builds writes)
+    let mut extras: Vec<CaseReq> = vec![];
+    {
+        let lens: Vec<usize> = if ctx.tier == "thorough" { vec![31, 32, 33, 63, 64, 65, 127, 128, 129, 255, 256, 257, 511, 512, 513, 1023, 1024, 1025, 2047, 2048, 2049, 4095, 4096, 4097] } else { vec![63, 64, 65, 127, 128, 129, 255, 256, 257, 1023, 1024, 1025, 4095, 4096, 4097] };
+        for l in lens {
+            for shape in 0..6usize {
+                let deco = [0usize, 1, 1, 2, 1, 2][shape];
+                let body: String = (0..l - deco).map(|k| if k % 2 == 0 { 'A' } else { 'b' }).collect();
+                let pat = match shape { 0 => body.clone(), 1 => format!("{}*", body), 2 => format!("*{}", body), 3 => format!("*{}*", body), 4 => format!("?{}", body), _ => format!("'{}'", body) };
+                let hit = body.to_ascii_lowercase();
+                let docs = vec![map1("s", ys(&hit)), map1("s", ys(&body)), map1("s", ys(&format!("x{}x", hit))), map1("s", ys("other"))];
+                extras.push(CaseReq { optimised: false, det: vec![("A".into(), map1("s", ys(&pat))), ("condition".into(), ys("A"))], tps: vec![], tns: vec![], docs: docs.clone(), masks: vec![0, 15] });
+                if shape % 2 == 1 {
+                    extras.push(CaseReq { optimised: false, det: vec![("A".into(), map1("s", Yaml::Sequence(vec![ys("zq*"), ys(&pat)]))), ("condition".into(), ys("A"))], tps: vec![], tns: vec![], docs, masks: vec![0, 15] });
+                }
+            }
+        }
+    }
+    for i in 0..n + extras.len() {
         let mut r = Rng::new(ctx.seed.wrapping_mul(743).wrapping_add(i as u64));
-        let mut c = gen_case(&mut r, vec![0, 15], 4);
-        if r.chance(25) {
+        let mut c: CaseReq = if i >= n { let e = &extras[i - n]; CaseReq { optimised: e.optimised, det: e.det.clone(), tps: e.tps.clone(), tns: e.tns.clone(), docs: e.docs.clone(), masks: e.masks.clone() } } else { gen_case(&mut r, vec![0, 15], 4) };
+        if i < n && r.chance(25) {
             // text that starts or ends with white space, or with the letter i itself
             let ws = [" a*", " a", "\ta", "a ", " *", " -enc*", "  ab", "*b ", "iis", "i*", "ii", " i", "i a", "\\inetpub\\*", "\\ipc$", "*\\intel\\*", "\\i", "\\I*"];
             let v = if r.chance(60) { ys(*r.pick(&ws)) } else { Yaml::Sequence(vec![ys(*r.pick(&ws)), ys(*r.pick(&ws))]) };
@@ -2454,7 +2552,7 @@ pub fn run_c15(ctx: &mut Ctx, _known: &Known) {
             continue;
         }
         // regex classes and boundaries are Unicode-aware in both builds
-        if i % 7 == 0 {
+        if i < n && i % 7 == 0 {
             let rx = ["?^\\w+\\.exe$", "?^\\d+$", "?^net\\s+user", "?\\bcmd\\b", "?^(kiosk|system)$", "?^\\w+$", "?\\W", "?^[[:alpha:]]+$", "?\\s$"];
             let v = if i % 14 == 0 { ys(rx[(i / 7) % rx.len()]) } else { Yaml::Sequence(vec![ys(rx[(i / 7) % rx.len()]), ys("zq*")]) };
             c.det.push(("U".into(), map1("s", v)));
@@ -2471,7 +2569,7 @@ pub fn run_c15(ctx: &mut Ctx, _known: &Known) {
         }
         // inline flag groups of a regex belong to the pattern: `(?-i)` keeps its part case-sensitive
         // in both builds
-        if i % 11 == 3 {
+        if i < n && i % 11 == 3 {
             let rx = ["?^(?-i)PsExec", "?(?-i:Ps)exec", "?^(?-i:net)\\s+USER", "?a(?s-i)B.c", "?(?i)abc(?-i)DEF", "?^((?-i)x|y)z$", "?(?-i)", "?\\(?-i\\)q"];
             let pick = rx[(i / 11) % rx.len()];
             let v = if i % 2 == 0 { ys(pick) } else { Yaml::Sequence(vec![ys(pick), ys(rx[(i / 11 + 3) % rx.len()]), ys("zq*")]) };
@@ -2488,7 +2586,7 @@ pub fn run_c15(ctx: &mut Ctx, _known: &Known) {
             }
         }
         // a comparison of two fields' texts holds no pattern: it is case-SENSITIVE in both builds
-        if i % 5 == 0 {
+        if i < n && i % 5 == 0 {
             for (k, cv) in c.det.iter_mut() {
                 if k == "condition" {
                     if let Yaml::String(t) = cv {
@@ -2503,7 +2601,7 @@ pub fn run_c15(ctx: &mut Ctx, _known: &Known) {
         }
         // only PATTERNS are case-insensitive, field names are not: documents whose keys differ from
         // the rule's fields in case only
-        if i % 3 == 0 {
+        if i < n && i % 3 == 0 {
             let extra: Vec<Yaml> = c.docs.iter().take(2).map(|d| upper_keys(d, i % 2 == 0)).collect();
             c.docs.extend(extra);
         }
